@@ -73,6 +73,7 @@ func c03Data(i int) (d [types.ColIdxCount][]byte) {
 // c03Run drives GPDir directly: sessions of WriteBlocks calls, a session is abandoned
 // (no Close) when a write fails — exactly what DBWriter.Write/WriteBulk do.
 func c03Run(x *explore.Ctx) {
+	gpfile.VerifResetPools()
 	n := 2 + x.Case%3 // 2..4 writes
 	if !x.Thorough() && n == 4 {
 		n = 3
